@@ -1174,27 +1174,54 @@ theorem updTarget_norm (seq : List Item) (name : Cps) (hn : name ≠ []) :
 theorem getProperty_idx (seq : List Item) (name : Cps) (norm : Bool) :
     getProperty seq name norm = (getPropertyIdx seq name norm).bind (propAt seq) := rfl
 
+theorem nonProps_append (a b : List Item) : nonProps (a ++ b) = nonProps a ++ nonProps b := by
+  induction a with
+  | nil => rfl
+  | cons x t ih => cases x <;> simp [nonProps, ih]
+
+theorem remove_nonProps (d : Decl) (name : Cps) (norm : Bool) :
+    nonProps (removeProperty d name norm).st.seq = nonProps d.seq := by
+  unfold removeProperty
+  by_cases hr : d.readonly = true
+  · simp [hr]
+  · simp only [hr, Bool.false_eq_true, if_false]
+    cases norm with
+    | true =>
+      simp only [if_true]
+      exact nonProps_filter _ _ (by intro it hit; cases it with
+        | prop p => exact absurd rfl (hit p)
+        | comment c => rfl
+        | other c => rfl)
+    | false =>
+      simp only [Bool.false_eq_true, if_false]
+      exact nonProps_filter _ _ (by intro it hit; cases it with
+        | prop p => exact absurd rfl (hit p)
+        | comment c => rfl
+        | other c => rfl)
+
 theorem set_refines (env : Env) (d : Decl) (name : Cps) (value : Option Cps) (prio : Cps) (repl : Bool)
     (h : NameInv d.seq) :
     absD (setProperty env d name value prio true repl).st = (specSet env (absD d) name value prio repl).st ∧
     (setProperty env d name value prio true repl).out = (specSet env (absD d) name value prio repl).out ∧
-    NameInv (setProperty env d name value prio true repl).st.seq := by
+    NameInv (setProperty env d name value prio true repl).st.seq ∧
+    nonProps (setProperty env d name value prio true repl).st.seq = nonProps d.seq := by
   have hrm := remove_refines d name true h
   have hrn := remove_nameInv d name true h
+  have hrp := remove_nonProps d name true
   unfold setProperty specSet
   by_cases hr : d.readonly = true
-  · simp only [absD, hr, if_true]; exact ⟨trivial, trivial, h⟩
+  · simp only [absD, hr, if_true]; exact ⟨trivial, trivial, h, trivial⟩
   · have hr' : (absD d).readonly = false := by simpa [absD] using hr
     simp only [hr, hr', Bool.false_eq_true, if_false]
     cases value with
-    | none => exact ⟨hrm.1, hrm.2, hrn⟩
+    | none => exact ⟨hrm.1, hrm.2, hrn, hrp⟩
     | some v =>
       cases v with
-      | nil => exact ⟨hrm.1, hrm.2, hrn⟩
+      | nil => exact ⟨hrm.1, hrm.2, hrn, hrp⟩
       | cons c cs =>
         simp only []
         cases hmk : mkProperty env name (c :: cs) prio with
-        | error e => exact ⟨rfl, rfl, h⟩
+        | error e => exact ⟨rfl, rfl, h, rfl⟩
         | ok newp =>
           simp only []
           by_cases hw : newp.wf = true
@@ -1208,10 +1235,12 @@ theorem set_refines (env : Env) (d : Decl) (name : Cps) (value : Option Cps) (pr
               rcases hq with hq | hq
               · exact h q hq
               · subst hq; exact hnm
+            have happ2 : nonProps (d.seq ++ [Item.prop newp]) = nonProps d.seq := by
+              rw [nonProps_append]; simp [nonProps]
             cases repl with
             | false =>
               simp only [Bool.false_eq_true, if_false, absD, props_append, props]
-              refine ⟨?_, ?_, happ⟩ <;> first | rfl | trivial
+              refine ⟨?_, ?_, happ, happ2⟩ <;> first | rfl | trivial
             | true =>
               simp only [if_true, Bool.not_true]
               rw [updTarget_norm d.seq name hn]
@@ -1221,7 +1250,7 @@ theorem set_refines (env : Env) (d : Decl) (name : Cps) (value : Option Cps) (pr
               cases hi : getPropertyIdx d.seq name true with
               | none =>
                 simp only [Option.bind_none, absD, props_append, props]
-                refine ⟨?_, ?_, happ⟩ <;> first | rfl | trivial
+                refine ⟨?_, ?_, happ, happ2⟩ <;> first | rfl | trivial
               | some i =>
                 obtain ⟨p, hp, _⟩ := getPropertyIdx_some d.seq name true i hi
                 simp only [Option.bind_some, hp]
@@ -1229,7 +1258,7 @@ theorem set_refines (env : Env) (d : Decl) (name : Cps) (value : Option Cps) (pr
                 have hcongr := updEffective_congr (gpMatch (normalize name) name true)
                   (fun q => q.name == normalize name) (fun q => (updateProp env q newp).p) (props d.seq)
                   (fun a ha => gpMatch_nameInv name a (h a ha))
-                refine ⟨?_, rfl, ?_⟩
+                refine ⟨?_, rfl, ?_, hset.2⟩
                 · simp only [absD]
                   rw [hset.1, hcongr]
                 · unfold NameInv
@@ -1238,8 +1267,8 @@ theorem set_refines (env : Env) (d : Decl) (name : Cps) (value : Option Cps) (pr
                   exact nameInvP_updEffective _ _ _ h (fun a => updateProp_frame env a newp)
           · simp only [hw, Bool.false_eq_true, if_false]
             cases logCall env with
-            | error e => exact ⟨rfl, rfl, h⟩
-            | ok u => exact ⟨rfl, rfl, h⟩
+            | error e => exact ⟨rfl, rfl, h, rfl⟩
+            | ok u => exact ⟨rfl, rfl, h, rfl⟩
 
 /-! ### histories -/
 
@@ -1802,5 +1831,94 @@ def VOpStable : VOp → Prop
 /-- the witness of `C10-escaped-backslash-name` in the variables block -/
 def escVars : Vars :=
   (vSet exampleEnv (vSet exampleEnv { vars := [], seq := [] } escLit [49]).st escLit [50]).st
+
+/-! ## DOM names: the general round trip -/
+
+def noUpper (n : Cps) : Bool := n.all (fun c => !isUpper c)
+
+/-- `n` starts with a hyphen followed by a letter (what `_toDOMname` turns into one capital) -/
+def startsHyLetter : Cps → Bool
+  | c :: d :: _ => c == 45 && isLetter d
+  | _ => false
+
+/-- no `-x-y…` where the first word has a single letter: `-x` directly followed by another hyphen-letter -/
+def noAdj : Cps → Bool
+  | c :: d :: rest => !(c == 45 && isLetter d && startsHyLetter rest) && noAdj (d :: rest)
+  | _ => true
+
+theorem noAdj_tail (c : Nat) (t : Cps) (h : noAdj (c :: t) = true) : noAdj t = true := by
+  cases t with
+  | nil => rfl
+  | cons d rest => simp only [noAdj, Bool.and_eq_true] at h; exact h.2
+
+theorem upper_lower (d : Nat) (h : isLower d = true) : isUpper (upperCp d) = true ∧ lowerCp (upperCp d) = d := by
+  simp only [isLower, Bool.and_eq_true, decide_eq_true_eq] at h
+  have h1 : isUpper (d - 32) = true := by simp only [isUpper, Bool.and_eq_true, decide_eq_true_eq]; omega
+  simp only [upperCp, isLower, h.1, h.2, decide_true, Bool.and_self, if_true, h1, lowerCp, true_and]
+  omega
+
+theorem lower_of_letter (d : Nat) (h : isLetter d = true) (hu : isUpper d = false) : isLower d = true := by
+  simpa [isLetter, hu] using h
+
+theorem head_toDOM_upper (r : Cps) (hu : noUpper r = true) (hs : startsHyLetter r = false) :
+    headIsUpper (toDOM r) = false := by
+  cases r with
+  | nil => rfl
+  | cons c t =>
+    have hc : isUpper c = false := by simp [noUpper] at hu; simpa using hu.1
+    cases t with
+    | nil => simp [toDOM, headIsUpper, hc]
+    | cons d rest =>
+      simp only [startsHyLetter] at hs
+      simp [toDOM, hs, headIsUpper, hc]
+
+theorem head_toDOM_lower (r : Cps) (hs : startsHyLetter r = false) : headIsLower (toDOM r) = headIsLower r := by
+  cases r with
+  | nil => rfl
+  | cons c t =>
+    cases t with
+    | nil => rfl
+    | cons d rest =>
+      simp only [startsHyLetter] at hs
+      simp [toDOM, hs, headIsLower]
+
+theorem toCSSgo_toDOM (n : Cps) (prevUp : Bool) (h1 : noUpper n = true) (h2 : noAdj n = true)
+    (h3 : prevUp = true → startsHyLetter n = false) : toCSSgo prevUp (toDOM n) = n := by
+  fun_induction toDOM n generalizing prevUp with
+  | case1 => rfl
+  | case2 c =>
+    have hc : isUpper c = false := by simpa [noUpper] using h1
+    simp [toCSSgo, hc]
+  | case3 c d rest hcond ih =>
+    simp only [Bool.and_eq_true, beq_iff_eq] at hcond
+    have hp : prevUp = false := by
+      cases prevUp with
+      | false => rfl
+      | true => have := h3 rfl; simp [startsHyLetter, hcond.1, hcond.2] at this
+    have hdu : isUpper d = false := by simp [noUpper] at h1; simpa using h1.2.1
+    have hdl := lower_of_letter d hcond.2 hdu
+    have hul := upper_lower d hdl
+    have hrU : noUpper rest = true := by simp [noUpper] at h1 ⊢; exact h1.2.2
+    have hrs : startsHyLetter rest = false := by
+      simp only [noAdj, Bool.and_eq_true, Bool.not_eq_true'] at h2
+      have := h2.1
+      simpa [hcond.1, hcond.2] using this
+    have hrA : noAdj rest = true := noAdj_tail d rest (noAdj_tail c (d :: rest) h2)
+    have ihr := ih true hrU hrA (fun _ => hrs)
+    have hhu := head_toDOM_upper rest hrU hrs
+    subst hp
+    simp only [toCSSgo, hul.1, if_true, hul.2, hhu, Bool.not_false, Bool.and_self, ihr, hcond.1]
+    split <;> rfl
+  | case4 c d rest hcond ih =>
+    have hc : isUpper c = false := by simp [noUpper] at h1; simpa using h1.1
+    have hrU : noUpper (d :: rest) = true := by simp [noUpper] at h1 ⊢; exact h1.2
+    have ihr := ih false hrU (noAdj_tail c _ h2) (by intro x; cases x)
+    simp [toCSSgo, hc, ihr]
+
+/-- names without capitals and without a single-letter word directly followed by another hyphen-letter (`-x-y`)
+survive CSS name → DOM name → CSS name -/
+theorem toCSS_toDOM_general (n : Cps) (h1 : noUpper n = true) (h2 : noAdj n = true) : toCSS (toDOM n) = n :=
+  toCSSgo_toDOM n false h1 h2 (by intro x; cases x)
+
 
 end CssVerif.Decl
